@@ -94,6 +94,23 @@ def registry():
               'column, row). ArrayFormula values are outside this contract (bounded). Dropped by the extraction: wb.close() and '
               'the constructor call'))
 
+    reg.add(Contract(
+        'Excel.parse/titles', 'repo:excel.py:Excel.parse#head2:worksheets_titles', P, self_class='Excel', fields=F, requires=[K5],
+        ensures={'titles_of_the_worksheets_read': f'is_list(result) and len(result) == len({WS}) and '
+                                                  f'all(result[s] == {WS}[s].title for s in range(len(result)))'},
+        invariants={
+            0: {'types': 'is_list(sheets_size) and is_list(worksheets_titles) and is_dict(suspicious_cells) and is_list(worksheets_data)',
+                'done': f'len(worksheets_titles) == k0 and all(worksheets_titles[s] == {WS}[s].title for s in range(len(worksheets_titles)))'},
+            1: {'types': 'is_list(sheets_size) and is_list(worksheets_titles) and is_dict(suspicious_cells) and is_list(worksheets_data) and '
+                         'is_list(worksheet_data) and is_int(max_row_len) and worksheet == ' + WS + '[k0]',
+                'outer': f'len(worksheets_titles) == k0 + 1 and all(worksheets_titles[s] == {WS}[s].title for s in range(len(worksheets_titles)))'},
+            2: {'types': 'is_list(sheets_size) and is_list(worksheets_titles) and is_dict(suspicious_cells) and is_list(worksheets_data) and '
+                         'is_list(worksheet_data) and is_int(max_row_len) and worksheet == ' + WS + '[k0] and is_list(rows_data) and '
+                         'row == worksheet.rows[k1]',
+                'outer': f'len(worksheets_titles) == k0 + 1 and all(worksheets_titles[s] == {WS}[s].title for s in range(len(worksheets_titles)))'},
+        },
+        notes='the i-th reported title is the title of the i-th worksheet whose cells were read (so title -> index agrees with '
+              'data and sizes); K3 obligation C18.Excel.parse.titles_returned checks that this list is what the constructor gets'))
     TYI = 'is_list(sheets_size) and is_list(worksheets_titles) and is_dict(suspicious_cells) and is_list(worksheets_data)'
     size_of = ('is_dict({z}) and has({z}, "last_row") and has({z}, "last_column") and get({z}, "last_row") == len({rows}) and '
                'is_int(get({z}, "last_column")) and all(I(get({z}, "last_column")) >= len({rows}[i]) for i in range(len({rows}))) and '
